@@ -295,5 +295,38 @@ Definition allowed (e : entry) (ao : bool) (v : flag -> option bool) : result * 
   | None => (Done, filter (may_run v) (f_pre f ++ f_post f))
   end.
 
+(* ------------------------------------------------------------------ Part 3: stored vs. handle configuration *)
+(* The guards read the config held in memory by the handle (`repo.config()`), the property speaks
+   about the config that is stored.  apply_config replaces the handle's config (`set_config`) and
+   stores it (`save_config`: two writes for a hot/cold repository); the order of the two and of
+   the two writes is regenerated from commands/config.rs.  A storage fault can hit either write. *)
+Record cfg := mk_cfg {
+  c_cold : bool;      (* append_only in the stored config of the cold (authoritative) part *)
+  c_hot : bool;       (* append_only in the stored hot copy (what a fresh `open` reads) *)
+  c_handle : bool }.  (* append_only in the memory of the handle that runs apply_config *)
+
+Inductive fault :=
+  | NoFault
+  | FailFirst             (* the first config write fails, nothing stored *)
+  | FailSecond            (* the first is stored, the second fails *)
+  | FirstStoredButErr     (* the first is stored but the backend reports an error; second not attempted *)
+  | SecondStoredButErr.   (* both stored, the backend reports an error *)
+
+Definition written (f : fault) : bool * bool :=
+  match f with
+  | NoFault | SecondStoredButErr => (true, true)
+  | FailFirst => (false, false)
+  | FailSecond | FirstStoredButErr => (true, false)
+  end.
+Definition failed (f : fault) : bool := match f with NoFault => false | _ => true end.
+
+(* apply_config past its guard with a config that differs, setting append_only to `new_ao` *)
+Definition config_step (set_first cold_first : bool) (f : fault) (new_ao : bool) (s : cfg) : cfg :=
+  let (w1, w2) := written f in
+  let (cw, hw) := if cold_first then (w1, w2) else (w2, w1) in
+  mk_cfg (if cw then new_ao else c_cold s)
+         (if hw then new_ao else c_hot s)
+         (if failed f then (if set_first then new_ao else c_handle s) else new_ao).
+
 (* the shared OCaml prelude converts to Z as well: keep the type in the extracted module *)
 Definition z_keep (z : BinNums.Z) : BinNums.Z := z.
